@@ -545,3 +545,35 @@ def reach(n):
     res = {'n': n, 'reachable_layouts': st['distinct'], 'all_layouts': n * (n + 1) if n > 0 else 1}
     json.dump(res, open(path, 'w'))
     return res
+
+
+# ------------------------------------------------------------------------------------------------
+def clone_scripts(n):
+    """C08: a cloned Iter (and a cloned IntoIter) continues independently from the same point: for every layout and a
+    few ranges, advance the original k steps, clone, then interleave steps on both and drop them in either order"""
+    out = []
+    lays = [(0, 0)] if n == 0 else [(st, sz) for st in range(n) for sz in range(n + 1)]
+    k_id = 0
+    for (st, sz) in lays:
+        ranges = {(0, sz), (min(1, sz), sz), (0, max(sz - 1, 0))}
+        for (a, b) in sorted(ranges):
+            if a > b:
+                continue
+            for pre in range(0, min(b - a, 2) + 1):
+                for kind in ('range', 'into_iter'):
+                    if kind == 'into_iter' and (a, b) != (0, sz):
+                        continue
+                    steps = layout_steps(n, st, sz)
+                    if kind == 'range':
+                        steps.append({"op": "range", "h": 0, "v": 0, "bs": ["i", a], "be": ["e", b]})
+                    else:
+                        steps.append({"op": "into_iter", "h": 0, "v": 0})
+                    steps += [{"op": "v_next" if j % 2 == 0 else "v_next_back", "v": 0} for j in range(pre)]
+                    steps.append({"op": "v_clone", "v": 0, "v2": 1})
+                    steps += [{"op": "v_len", "v": 1}, {"op": "v_next", "v": 0}, {"op": "v_len", "v": 1}, {"op": "v_next_back", "v": 1},
+                              {"op": "v_next", "v": 1}, {"op": "v_len", "v": 0}, {"op": "v_debug", "v": 1}]
+                    steps += [{"op": "v_drop", "v": k_id % 2}, {"op": "v_rest", "v": 1 - k_id % 2, "i": k_id % 2}]
+                    out.append({"id": "vc%d-%d" % (n, k_id), "n": n, "ty": "t", "tags": ["iter", "clone_script"], "steps": steps,
+                                "first_op": kind, "pred": {"start": st, "size": sz}})
+                    k_id += 1
+    return out
